@@ -329,7 +329,7 @@ func exprD(v ssa.Value, d int, seen *ectx) string {
 	if v == nil {
 		return "<nil>"
 	}
-	if d > 10 {
+	if d > 18 {
 		return "…"
 	}
 	if seen.sub != nil {
@@ -1077,7 +1077,23 @@ func pkgPathOf(f *ssa.Function) string {
 
 // guardedLocal: every path from f's entry to target crosses a pass edge of g.
 func (ge *guardEnv) guardedLocal(f *ssa.Function, target ssa.Instruction, g Guard, depth int) (bool, []*ssa.BasicBlock) {
+	return ge.guardedLocalX(f, target, g, depth, nil)
+}
+
+// guardedLocalX: as guardedLocal; extra lists edges that cannot lie on a path of interest (e.g. the
+// edge on which the returned error is known non-nil, when only success returns are of interest).
+func (ge *guardEnv) guardedLocalX(f *ssa.Function, target ssa.Instruction, g Guard, depth int, extra map[Edge]bool) (bool, []*ssa.BasicBlock) {
 	edges := ge.passEdges(f, g, depth)
+	if len(extra) > 0 {
+		m := map[Edge]bool{}
+		for e := range edges {
+			m[e] = true
+		}
+		for e := range extra {
+			m[e] = true
+		}
+		edges = m
+	}
 	// a call to a helper without success indicator that establishes g on every return (panics or
 	// never returns otherwise) guards everything after it
 	var kill func(ssa.Instruction) bool
@@ -1096,6 +1112,21 @@ func (ge *guardEnv) guardedLocal(f *ssa.Function, target ssa.Instruction, g Guar
 	}
 	r, p := reachFromEntry(f, edges, kill, target)
 	return !r, p
+}
+
+// guardedEdge: every path from entry that takes the edge p→s crosses a pass edge of g (the edge itself counts).
+func (ge *guardEnv) guardedEdge(f *ssa.Function, p, s *ssa.BasicBlock, g Guard, depth int) (bool, []*ssa.BasicBlock) {
+	pe := ge.passEdges(f, g, depth)
+	all := true
+	for i, x := range p.Succs {
+		if x == s && !pe[Edge{p, i}] {
+			all = false
+		}
+	}
+	if all {
+		return true, nil
+	}
+	return ge.guardedLocal(f, p.Instrs[len(p.Instrs)-1], g, depth)
 }
 
 func hasSuccessIndicator(h *ssa.Function) bool {
@@ -1175,7 +1206,23 @@ func (ge *guardEnv) ensuresUncached(h *ssa.Function, g Guard, depth int) bool {
 				continue
 			}
 		}
-		if ok, _ := ge.guardedLocal(h, p.at, g, depth); !ok {
+		// `return res, err` reached over an edge on which err is known non-nil is not a success
+		var extra map[Edge]bool
+		if p.val != nil {
+			bad := "false"
+			if p.wantNil {
+				bad = "nonnil"
+			}
+			for _, ea := range condEdges(h) {
+				if ea.A.Kind == bad && ea.A.V != nil && sameValue(ea.A.V, p.val) {
+					if extra == nil {
+						extra = map[Edge]bool{}
+					}
+					extra[ea.E] = true
+				}
+			}
+		}
+		if ok, _ := ge.guardedLocalX(h, p.at, g, depth, extra); !ok {
 			return false
 		}
 	}
